@@ -413,7 +413,9 @@ def _show(h):
 
 
 def sweep(ctx: Ctx) -> None:
-    """Thorough tier: every history up to length 4 (single APID with gaps; two APIDs in sequence)."""
+    """Thorough tier: every history up to length 4 (single APID with gaps; two APIDs in sequence), and one group longer than
+    the period of the sequence counter."""
+    ctx.guard("R12.long", DEF, long_group, ctx)
     prog = ctx.prog
     fi = prog.func(f"{DEF}::XtcePacketDefinition.packet_generator")
     hs = exhaustive_histories(4)
@@ -437,6 +439,41 @@ def sweep(ctx: Ctx) -> None:
     else:
         ctx.proved("R12.exh", f"{fi.key}::exhaustive<=4", f"{ok} histories agree", histories=n)
     ctx.stats["exhaustive_histories"] = n
+
+
+def long_group(ctx: Ctx) -> None:
+    """One group longer than the period of the 14-bit counter (FIRST, 16385 CONTINUATION, LAST: 16387 packets with consecutive
+    counts modulo 16384): parsed as ONE packet consisting of the whole first packet and every later data field, nothing lost."""
+    prog = ctx.prog
+    fi = prog.func(f"{DEF}::XtcePacketDefinition.packet_generator")
+    site = f"{fi.key}::combine::group of 16387 packets"
+    got = []
+
+    def parse_stub(selfv, packet, root_container_name=None):
+        raw = pub(packet, "raw_data")
+        got.append(bytes(raw))
+        raw.attrs["pos"] = 8 * len(raw)
+        return packet
+    it = make_interp(prog, {"XtcePacketDefinition.parse_ccsds_packet": parse_stub,
+                            "space_packet_parser.packets.ccsds_generator": lambda b, **k: b}, max_steps=20_000_000)
+    warned = []
+    it.on_event = lambda ev: warned.append(1) if ev[0] == "warn" else None
+    n = 16387
+    pk = [raw_packet(bytes([i % 251, (i // 251) % 256]), apid=7, flags=(F if i == 0 else (L if i == n - 1 else C)), count=(16000 + i) % MOD) for i in range(n)]
+    try:
+        it.call(fi, [model_definition(it, "ROOT"), pk], {"combine_segmented_packets": True, "secondary_header_bytes": 0})
+    except Raised as r:
+        ctx.refuted("R12.long", site, f"a long group escapes with {r.exc.tname}", where=where(fi, fi.node))
+        return
+    except Unsupported as e:
+        ctx.unknown("R12.long", site, str(e))
+        return
+    whole = bytes(pk[0]) + b"".join(bytes(p)[6:] for p in pk[1:])
+    ok = got == [whole] and not warned
+    ctx.decide(ok, "R12.long", site, "one combined packet of 16387 members",
+               f"a FIRST, 16385 CONTINUATION and a LAST packet with consecutive counts: the parser received {len(got)} packet(s)"
+               f"{' of ' + str(len(got[0])) + ' bytes starting ' + got[0][:8].hex() if got else ''}, warned={bool(warned)}; expected one packet of "
+               f"{len(whole)} bytes starting {whole[:8].hex()}", where=where(fi, fi.node))
 
 
 def mutants(prog):
